@@ -92,7 +92,7 @@ def oracle_load_equality(ck, rng):
         b = int(rng.integers(1, 5))
         if i % 8 == 2:
             b = 2 + (i // 8) % 2          # (directed low-face case below: a bin size > 1)
-        if i % 8 == 5:
+        if i % 8 in (1, 5):
             b = 2 + (i // 8) % 3          # (metre-scale case below: a bin size > 1)
         S = tuple(int(x) for x in rng.integers(1, 5, size=3))
         dims = tuple(int(x) for x in rng.integers(10 * b, 10 * b + b + 3, size=3))
@@ -102,8 +102,8 @@ def oracle_load_equality(ck, rng):
         img = rng.integers(hi // 2, hi, size=dims).astype(dt)
         corner_safe = bool(i % 3 == 1) or bool(i % 3 == 0 and (i // 3) % 2 == 0)      # single and batch loaders, with and without
         scale = float(rng.choice([1.0, 0.5, 2.0]))
-        if i % 8 == 5:
-            scale = 2.0 ** -32         # lengths given in metres (0.23 nm voxels): every length in the loader is tiny, none is negligible
+        if i % 8 in (1, 5):
+            scale = 2.0 ** -32 if i % 8 == 5 else 2.0 ** -12         # lengths given in metres (0.23 nm voxels): every length in the loader is tiny, none is negligible
         # binned-grid position c' (integer for odd S, half-integer for even S) -> original position c = b c' + (b-1)/2
         cb = np.array([rng.integers(4, 6) + ((s - 1) / 2 - (s - 1) // 2) for s in S], dtype=float)
         if i % 4 == 2:
